@@ -281,7 +281,8 @@ impl Driver {
             let mut drops = 0;
             while !self.pool.is_empty() && !self.failed {
                 let n = self.pool.len();
-                let i = if all_orders && n <= 3 { ch.choose(n) } else { n - 1 };
+                // exhaustive mode: every order of <= 3 survivors; walks: a random order
+                let i = if (all_orders && n <= 3) || !ch.exhaustive() { ch.choose(n) } else { n - 1 };
                 let s = self.pool.swap_remove(i);
                 self.log(format!("enddrop {}{}", s.tname(), s.id));
                 let r = crate::util::catch(move || drop(s));
